@@ -829,6 +829,7 @@ def _is_calc_call(c: ast.AST) -> bool:
 
 def check_pure(run: Run, prog: Program) -> None:
     calc, ct, paths = _ctp_paths(prog)
+    v0 = len(run.violations)
     # ---- the computation (and everything it reaches) uses `self` only to call further methods
     for f in reachable_code(prog, calc):
         bad: list[ast.AST] = []
@@ -940,6 +941,24 @@ def check_pure(run: Run, prog: Program) -> None:
     run.check(good, "C03.PURE", ct.qual, "return <fresh target>",
               "a value other than the freshly computed target is returned",
               node=ct.node, file=ct.file, path=worst.describe() if worst else None)
+    # a target that is handed out is also the one get_target_power will report
+    for p in rets:
+        if u(p.ret) not in fresh_texts:
+            continue
+        stored = any(e.kind == "write" and u(e.node.elts[0]) == f"self._target_power[{gid}]"  # type: ignore[attr-defined]
+                     and u(e.node.elts[1]) == u(p.ret) for e in p.effects)  # type: ignore[attr-defined]
+        unseen = [e for e in p.calls(lambda c: isinstance(c.func, ast.Attribute) and u(c.func.value) == "self"
+                                     and not _is_calc_call(c) and u(p.ret) in [u(a) for a in c.args]
+                                     + [u(k.value) for k in c.keywords])]
+        if not stored and unseen:
+            raise AnalysisError(f"{ct.qual}: the fresh target is passed to {unseen[0].text[:60]}, which is not "
+                                "followed: cannot tell whether it is stored")
+        run.check(stored, "C03.PURE", ct.qual, f"self._target_power[{gid}] = <fresh target>",
+                  "a freshly computed target is returned without being stored: get_target_power would "
+                  "keep reporting the previous one", node=ct.node, file=ct.file, path=p.describe(),
+                  instance=f"{ct.qual} :: stored before return on path {_pid(p)}")
+    if not n_writes and len(run.violations) == v0:
+        raise AnalysisError(f"{ct.qual}: no path stores the computed target")
 
 
 def _pid(p: SymPath) -> str:
